@@ -467,3 +467,26 @@ Example ex_hdr :
   lobserve 1 0 0 l (LBase (ICrash (AProduce 200) 3 true)) = (7%N, []) /\
   queue (base (lstep 1 0 0 l (LBase (ICrash (AProduce 200) 3 true)))) = [[1%N]].
 Proof. vm_compute. repeat split; reflexivity. Qed.
+
+(* ---- Reaper.SubmitTxs TRANSLATED FROM THE SOURCE (Check/GoLiteReaper.v, regenerated on every run) ----------------
+   The selection loop of the reaper, run with the code's own body (GoLiteReaperRefine.code_select: every step IS the
+   translated body of `for _, tx := range txs`, by go_select_one), selects exactly Reaper.select — for every seen set,
+   batch set, list selected so far and transaction list; so the ONE SubmitBatchTxs of a reap (go_SubmitTxs) carries
+   exactly Reaper.new_txs, in the executor's order. *)
+From Verif Require Model.GoLite Check.GoLiteReaper Proofs.GoLiteReaperRefine.
+Theorem C11_translated_selection_is_select_full : forall (sn l inb : list Reaper.tx) (acc : list GoLite.gval),
+  GoLiteReaperRefine.code_select sn inb acc l = acc ++ map GoLite.VN (Reaper.select sn inb l).
+Proof. exact GoLiteReaperRefine.code_select_is_select. Qed.
+Print Assumptions C11_translated_selection_is_select_full.
+
+Theorem C11_translated_reap_hands_over_new_txs_full : forall s : Reaper.st,
+  GoLiteReaperRefine.code_select (Reaper.seen s) [] [] (Reaper.mem s) = map GoLite.VN (Reaper.new_txs s).
+Proof. exact GoLiteReaperRefine.reap_hands_over_new_txs. Qed.
+Print Assumptions C11_translated_reap_hands_over_new_txs_full.
+
+(* a hand-off the sequencer refuses marks nothing seen and notifies nobody: the transactions are offered again *)
+Theorem C11_translated_refused_handoff_marks_nothing_full : forall w : GoLiteReaper.rworld,
+  GoLiteReaper.r_getok w = true -> GoLiteReaper.r_submitok w = false ->
+  filter GoLiteReaper.marks_or_notifies (snd (GoLiteReaper.reap_expect w)) = [].
+Proof. exact GoLiteReaper.refused_handoff_marks_nothing. Qed.
+Print Assumptions C11_translated_refused_handoff_marks_nothing_full.
